@@ -20,6 +20,39 @@ func runC16(w *World, r *Report) {
 	r.Rule("C16-R1", "check-then-add", "AddKeyValue is dominated by the `true` outcome of CheckKeyNotExist or the `false` outcome of CheckKeyExist in the same function with no release of channelLock in between; in startReadChannel it is also dominated by the not-found outcome of the channelHandlerMap lookup", 2)
 	r.Rule("C16-R2", "lockset", "calls of CheckKeyNotExist/CheckKeyExist/AddKeyValue and accesses to channelHandlerMap, channelForwardMap, sourcePChannelKeyMap are made with replicateChannelManager.channelLock held (write lock for writes)", 20)
 	r.Rule("C16-R3", "atomic quota reservation", "forwardChannel: `forwardCnt < AverageCnt()` and `channelForwardMap[ch] += 1` in one write-lock span, the increment dominated by the below-quota edge", 1)
+	r.Rule("C16-R5", "nothing can fail after the reservation", "in replicateChannelManager.startReadChannel no error return is reachable from AddKeyValue / the channelForwardMap increment: a reserved slot always gets its handler", 1)
+	if src := w.Func(pkgReader, "replicateChannelManager", "startReadChannel"); src != nil {
+		n := 0
+		eachInstr(src, func(in ssa.Instruction) {
+			c, ok := in.(*ssa.Call)
+			if !ok || callSym(c.Common()).name != "AddKeyValue" {
+				return
+			}
+			n++
+			bad := token.NoPos
+			reach := blockReach(c.Block(), nil)
+			reach[c.Block()] = true
+			for b := range reach {
+				ret, isR := b.Instrs[len(b.Instrs)-1].(*ssa.Return)
+				if !isR || len(ret.Results) == 0 {
+					continue
+				}
+				if b == c.Block() && instrIndex(ret) < instrIndex(c) {
+					continue
+				}
+				last := returnedValue(ret, len(ret.Results)-1)
+				if last != nil && isErrorType(src.Signature.Results().At(src.Signature.Results().Len()-1).Type()) && !isNilConst(last) {
+					bad = ret.Pos()
+				}
+			}
+			r.Check(bad == token.NoPos, "C16-R5", fmt.Sprintf("(*replicateChannelManager).startReadChannel | AddKeyValue#%d is past the last failure point", n), c.Pos(), "no error return after the reservation", "an error return is reachable after the mapping entry and the quota slot were reserved: a failed start (e.g. the MQ connection check) leaves an assignment without a handler, which blocks the same pair on retry and eats a slot of the downstream channel")
+		})
+		if n == 0 {
+			r.Fail("C16-R5", "(*replicateChannelManager).startReadChannel | AddKeyValue", src.Pos(), "no reservation found")
+		}
+	} else {
+		r.Undecided("C16-R5", "startReadChannel", 0, "anchor not found")
+	}
 	r.Rule("C16-R4", "assignments are append-only", "ChannelMapping's maps are written only in AddKeyValue/NewChannelMapping; no delete() or reassignment of channelHandlerMap / sourcePChannelKeyMap / ChannelMapping maps anywhere", 4)
 
 	mgr := w.Named(pkgReader, "replicateChannelManager")
@@ -171,6 +204,14 @@ func runC16(w *World, r *Report) {
 					cntOK = true
 				}
 			}
+			// only the quota decides whether a free channel is forwarded: the comparison is reached on every call
+			allDom := true
+			eachInstr(g, func(in ssa.Instruction) {
+				if ret, isR := in.(*ssa.Return); isR && len(ret.Block().Preds) > 0 && !instrDominates(cmp, ret) {
+					allDom = false
+				}
+			})
+			r.Check(allDom, "C16-R3", "(*replicateChannelManager).forwardChannel$lit | only the quota can refuse a free channel", cmp.Pos(), "the quota comparison dominates every return", "a path leaves forwardChannel before the quota comparison (some other condition refuses the free channel): a channel freed before its waiter registered is dropped and that waiter is never assigned one")
 			r.Check(sameSpan && onBranch && cntOK, "C16-R3", cons, cmp.Pos(), "compare and increment in one write-lock span, increment on the below-quota branch", fmt.Sprintf("quota check and reservation are not atomic (same write-lock span=%v, increment on the below-quota branch=%v, compares the map's count=%v): two forwards of one free channel can both pass", sameSpan, onBranch, cntOK))
 		}
 	}
